@@ -51,7 +51,14 @@ fn index_items(prefix: &str, items: &[Item], idx: &mut Index) {
                 }
             }
             Item::Fn(f) => {
-                idx.fns.insert(format!("{}::{}", prefix, f.sig.ident), f.clone());
+                let p = format!("{}::{}", prefix, f.sig.ident);
+                // fn items nested in a body are addressable as outer::inner
+                for st in &f.block.stmts {
+                    if let Stmt::Item(Item::Fn(inner)) = st {
+                        idx.fns.insert(format!("{}::{}", p, inner.sig.ident), inner.clone());
+                    }
+                }
+                idx.fns.insert(p, f.clone());
             }
             Item::Struct(s) => {
                 idx.types.insert(format!("{}::{}", prefix, s.ident), it.clone());
@@ -643,7 +650,7 @@ impl VisitMut for StripAttrs {
     }
     fn visit_block_mut(&mut self, b: &mut Block) {
         // nested macro_rules!/use items inside bodies are not executable
-        b.stmts.retain(|s| !matches!(s, Stmt::Item(Item::Macro(_)) | Stmt::Item(Item::Use(_))));
+        b.stmts.retain(|s| !matches!(s, Stmt::Item(Item::Macro(_)) | Stmt::Item(Item::Use(_)) | Stmt::Item(Item::Fn(_))));
         visit_mut::visit_block_mut(self, b);
     }
 }
@@ -889,7 +896,7 @@ fn main() {
     let reqs = std::fs::read_to_string(&req_path).unwrap_or_else(|e| die(&format!("{}: {}", req_path, e)));
 
     enum Req {
-        Fn(String, Option<String>),
+        Fn(String, Option<String>, Vec<(String, String)>),
         Impl(String, Vec<String>),
         Ty(String),
     }
@@ -904,10 +911,19 @@ fn main() {
         match w[0] {
             "fn" => {
                 let newname = if w.len() >= 4 && w[2] == "as" { Some(w[3].to_string()) } else { None };
+                let mut renames = Vec::new();
+                if let Some(pos) = w.iter().position(|x| *x == "with") {
+                    for pair in w[pos + 1..].iter().flat_map(|x| x.split(',')) {
+                        if let Some((a, b)) = pair.split_once('=') {
+                            renames.push((a.to_string(), b.to_string()));
+                            known.insert(b.to_string());
+                        }
+                    }
+                }
                 let base = w[1].rsplit("::").next().unwrap().to_string();
                 known.insert(newname.clone().unwrap_or(base.clone()));
                 known.insert(base);
-                rs.push(Req::Fn(w[1].to_string(), newname));
+                rs.push(Req::Fn(w[1].to_string(), newname, renames));
             }
             "impl" => {
                 known.insert(w[1].rsplit("::").next().unwrap().to_string());
@@ -932,7 +948,7 @@ fn main() {
     let mut report = String::new();
     for r in rs {
         match r {
-            Req::Fn(path, newname) => {
+            Req::Fn(path, newname, renames) => {
                 let Some(f) = idx.fns.get(&path) else {
                     missing.push(path);
                     continue;
@@ -948,6 +964,9 @@ fn main() {
                 };
                 let mut fl = Flatten { known: &known };
                 ts = flatten_tokens(ts, &mut fl);
+                if !renames.is_empty() {
+                    ts = rename_idents(ts, &renames);
+                }
                 let name = newname.clone().unwrap_or_else(|| f.sig.ident.to_string());
                 out.push_str(&format!("//@@ITEM fn {} {}\n", path, name));
                 print_tokens(ts, 0, &mut out);
@@ -1030,6 +1049,26 @@ fn main() {
     }
 }
 
+fn rename_idents(ts: TokenStream, renames: &[(String, String)]) -> TokenStream {
+    ts.into_iter()
+        .map(|tt| match tt {
+            TokenTree::Group(g) => {
+                let mut ng = proc_macro2::Group::new(g.delimiter(), rename_idents(g.stream(), renames));
+                ng.set_span(g.span());
+                TokenTree::Group(ng)
+            }
+            TokenTree::Ident(i) => {
+                let s = i.to_string();
+                match renames.iter().find(|(a, _)| *a == s) {
+                    Some((_, b)) => TokenTree::Ident(Ident::new(b, i.span())),
+                    None => TokenTree::Ident(i),
+                }
+            }
+            other => other,
+        })
+        .collect()
+}
+
 /// Flattening works on the syn AST; items containing `Verbatim` parts are handled by re-parsing
 /// what can be parsed: we instead rewrite *token-level* paths `a :: b :: c`.
 fn flatten_tokens(ts: TokenStream, fl: &mut Flatten) -> TokenStream {
@@ -1055,7 +1094,8 @@ fn flatten_tokens(ts: TokenStream, fl: &mut Flatten) -> TokenStream {
                 if j + 2 < toks.len() && is_colon2(&toks[j], &toks[j + 1]) {
                     if let TokenTree::Ident(_) = &toks[j + 2] {
                         // leading `::` only if previous token is not an ident / `>` (i.e. not a path continuation)
-                        let cont = matches!(out.last(), Some(TokenTree::Ident(_))) || matches!(out.last(), Some(TokenTree::Punct(p)) if p.as_char() == '>');
+                        let arrow = out.len() >= 2 && matches!(&out[out.len() - 2], TokenTree::Punct(q) if (q.as_char() == '=' || q.as_char() == '-') && q.spacing() == proc_macro2::Spacing::Joint);
+                        let cont = matches!(out.last(), Some(TokenTree::Ident(_))) || (matches!(out.last(), Some(TokenTree::Punct(p)) if p.as_char() == '>') && !arrow);
                         if !cont {
                             leading = true;
                             j += 2;
